@@ -158,6 +158,25 @@ def oracle(prop, graph, init, ops, obs):
                         yield ("C18 scheduled-task-offered-without-retraction", {"step": i, "task": k})
                 if len(L) != len(set(L)):
                     yield ("C18 task-offered-twice", {"step": i})
+                # a VIRTUAL task is offered only if every VIRTUAL predecessor that can be estimated at all is offered
+                # too (its estimated release is no later): otherwise a task is offered whose predecessor cannot have
+                # completed. Checked on graphs without conditionals (no branch prediction), without retraction and
+                # without whole-graph release, where the offer is a pure horizon test.
+                if not op["retract"] and not op["rtg"] and not any(t["conditional"] for t in graph["tasks"]):
+                    est = {k for k in range(len(pst)) if pst[k] in ("COMPLETED", "RUNNING", "PREEMPTED", "EVICTED", "RELEASED", "SCHEDULED")}
+                    todo = list(est)
+                    while todo:
+                        x = todo.pop()
+                        for c in graph["children"][x]:
+                            if pst[c] == "VIRTUAL" and c not in est:
+                                est.add(c)
+                                todo.append(c)
+                    for k in L:
+                        if pst[k] != "VIRTUAL":
+                            continue
+                        for q in graph["parents"][k]:
+                            if pst[q] == "VIRTUAL" and q in est and q not in L:
+                                yield ("C18 task-offered-although-its-virtual-predecessor-is-not", {"step": i, "task": k, "predecessor": q})
             if name == "notify" and o["out"] == "ok" and not graph["tasks"][op["n"]]["conditional"]:
                 n = op["n"]
                 exp = []
